@@ -24,7 +24,7 @@ Step(e) ==
   CASE e.a = "Init"       -> Reset0
     [] e.a = "SrcApply"   -> SrcApply(e.ks, e.lose)
     [] e.a = "StartDelta" -> StartDelta
-    [] e.a = "Deliver"    -> Deliver(e.ms)
+    [] e.a = "Deliver"    -> Deliver(e.ms, e.mate)
     [] e.a = "Dup"        -> Dup(e.i)
     [] e.a = "Drop"       -> Drop(e.i)
     [] e.a = "Retry"      -> Retry(SeqRange(e.sent))
